@@ -34,6 +34,7 @@ MIN_NONTRIVIAL = {"quick": 200, "thorough": 3000}
 REACH_FLOORS = {"curl_executions": 300}
 SHARD_TIMEOUT = {"quick": 900, "thorough": 5400}
 
+DEFAULT_NAMED = {"accept", "user-agent", "accept-encoding"}
 IGNORED = {"host", "user-agent", "accept", "accept-encoding", "connection", "content-length", "transfer-encoding", "expect", "x-schemathesis-testcaseid"}
 SPECIAL = "'\"\\$`;&|<>()! *?[]#~%{}"
 WORDS = ["a", "it's", 'say "hi"', "$HOME", "`id`", "a;b", "x&y", "p|q", "<tag>", "(x)", "back\\slash", "tab\there", "sp ace", "", "-d", "--data", "@file", "#frag", "100%", "né", "a=b", "*", "~", "$(id)", "\\n", "!!", "{}", "[1]"]
@@ -80,8 +81,10 @@ def plan(tier, seed):
     return [{"tier": tier, "seed": seed, "shard": i, "nshards": nshards} for i in range(nshards)]
 
 
-def comparable_headers(record):
-    return sorted((k.lower(), v) for k, v in record["headers"] if k.lower() not in IGNORED)
+def comparable_headers(record, defined=()):
+    """`defined`: lower-case names the test case itself sets; those are content even when they are named like a header
+    that curl / requests would otherwise add on their own (Accept, User-Agent, Accept-Encoding)."""
+    return sorted((k.lower(), v) for k, v in record["headers"] if k.lower() not in IGNORED or k.lower() in defined)
 
 
 def multipart_view(record):
@@ -107,7 +110,10 @@ def classify(case_desc, a, b, field):
     headers = case_desc["headers"]
     body = case_desc.get("body")
     if field == "headers":
-        ha, hb = dict(comparable_headers(a)), dict(comparable_headers(b))
+        defined = {k.lower() for k in headers}
+        ha, hb = dict(comparable_headers(a, defined)), dict(comparable_headers(b, defined))
+        if any(k in DEFAULT_NAMED for k in defined) and any(ha.get(k) != hb.get(k) for k in defined if k in DEFAULT_NAMED):
+            return "C09/case-header-named-like-a-default-one-not-reproduced"
         missing = [k for k in ha if k not in hb]
         if missing and all(ha[k] == "" for k in missing) and all(ha.get(k) == hb.get(k) for k in hb):
             return "C09/empty-header-value-dropped-by-curl"
@@ -161,6 +167,10 @@ def run_shard(spec, emit):
             for name in ("X-A", "X-B"):
                 if rng.random() < 0.7:
                     desc["headers"][name] = rand_value(rng).strip(" \t") if rng.random() < 0.8 else ""
+            if rng.random() < 0.3:
+                # a header the case defines itself although requests has a default of that name
+                desc["headers"][rng.choice(["Accept", "User-Agent", "Accept-Encoding"])] = rng.choice(["", "", "text/x-" + (rand_value(rng).strip(" \t") or "v"), "identity"])
+                emit.count("cases_defining_default_named_header")
             if rng.random() < 0.5:
                 desc["cookies"]["c"] = rand_value(rng, allow_empty=False).replace(";", "").replace(" ", "").replace('"', "").replace("\\", "").replace("\t", "") or "v"
             kwargs = {}
@@ -244,8 +254,9 @@ def run_shard(spec, emit):
                 b = dict(b, body="", headers=[(k, re.sub(r"boundary=[^;]+", "boundary=B", v) if k.lower() == "content-type" else v) for k, v in b["headers"]])
             if a["body"] != b["body"]:
                 emit.viol(classify(desc, a, b, "body"), f"{a['body'][:100]!r} vs {b['body'][:100]!r}", context)
-            if comparable_headers(a) != comparable_headers(b):
-                emit.viol(classify(desc, a, b, "headers"), f"{comparable_headers(a)} vs {comparable_headers(b)}"[:400], context)
+            defined = {k.lower() for k in desc["headers"]}
+            if comparable_headers(a, defined) != comparable_headers(b, defined):
+                emit.viol(classify(desc, a, b, "headers"), f"{comparable_headers(a, defined)} vs {comparable_headers(b, defined)}"[:400], context)
 
 
 def printed_commands(stdout):
